@@ -821,6 +821,14 @@ hdf_xdr_NCvdata(NC *handle, NC_var *vp, unsigned long where, nc_type type, uint3
         }
     }
 
+    /* The access id may already be open (an earlier read of the still empty variable
+       opened it), in which case hdf_get_vp_aid() never saw the request to give the
+       new element its full length */
+    if (vp->set_length == TRUE && handle->xdrs->x_op == XDR_ENCODE) {
+        Hsetlength(vp->aid, vp->len);
+        vp->set_length = FALSE;
+    }
+
     /*
        Figure out if the tag/ref is a compressed special-element with no data.
        This "template" tag/ref is treated as if the tag/ref doesn't exist at
